@@ -102,6 +102,10 @@ impl StarkProof {
 
         let fri = self.proof_parameters.stark.fri.clone();
 
+        // The verifier's proof of work difficulty is a u8.
+        if fri.proof_of_work_bits > u8::MAX as u32 {
+            anyhow::bail!("Invalid proof of work bits");
+        }
         let proof_of_work = ProofOfWorkConfig { n_bits: fri.proof_of_work_bits };
         let n_queries = fri.n_queries;
 
@@ -411,6 +415,10 @@ impl TryFrom<StarkProof> for stark_proof::StarkProof {
             &value.annotations.iter().map(String::as_str).collect::<Vec<_>>(),
             value.proof_parameters.stark.fri.fri_step_list.len(),
         )?;
+        // The verifier's proof of work nonce is a u64.
+        if annotations.proof_of_work_nonce.bits() > 64 {
+            anyhow::bail!("Invalid proof of work nonce");
+        }
         let public_input = StarkProof::public_input(
             value.public_input.clone(),
             annotations.z.clone(),
